@@ -348,3 +348,60 @@ pub fn run_sub(sub: &Term<Sub>, state: &mut State, regs: &[Variable], limits: &L
         }
     }
 }
+
+
+/// How a single block ends (used by block-level differential checks).
+#[derive(Clone, Debug, PartialEq, Eq)]
+pub enum BlockExit {
+    Goto(String),
+    Indirect(u128),
+    Return(u128),
+    Call { target: String, ret: Option<String> },
+    CallInd { target: u128, ret: Option<String> },
+    CallOther { desc: String, ret: Option<String> },
+    FallOff,
+}
+
+/// Execute the defs and evaluate the jumps of one block.
+pub fn run_block(blk: &Term<Blk>, state: &mut State) -> (Vec<Event>, BlockExit) {
+    let mut events = vec![];
+    for def in &blk.term.defs {
+        match &def.term {
+            Def::Assign { var, value } => {
+                let v = state.eval(value);
+                let w = u64::from(var.size) as usize;
+                state.vars.insert(var.name.clone(), rs::val(v.v, w));
+            }
+            Def::Load { var, address } => {
+                let a = state.eval(address).v as u64;
+                let w = u64::from(var.size) as usize;
+                let v = state.read_mem(a, w);
+                events.push(Event::Read { addr: a, size: w, val: v });
+                state.vars.insert(var.name.clone(), rs::val(v, w));
+            }
+            Def::Store { address, value } => {
+                let a = state.eval(address).v as u64;
+                let v = state.eval(value);
+                state.write_mem(a, v.w, v.v);
+                events.push(Event::Write { addr: a, size: v.w, val: v.v });
+            }
+        }
+    }
+    let t = |o: &Option<Tid>| o.as_ref().map(|t| format!("{}", t));
+    for jmp in &blk.term.jmps {
+        match &jmp.term {
+            Jmp::Branch(tg) => return (events, BlockExit::Goto(format!("{}", tg))),
+            Jmp::CBranch { target, condition } => {
+                if state.eval(condition).v != 0 {
+                    return (events, BlockExit::Goto(format!("{}", target)));
+                }
+            }
+            Jmp::BranchInd(e) => return (events, BlockExit::Indirect(state.eval(e).v)),
+            Jmp::Return(e) => return (events, BlockExit::Return(state.eval(e).v)),
+            Jmp::Call { target, return_ } => return (events, BlockExit::Call { target: format!("{}", target), ret: t(return_) }),
+            Jmp::CallInd { target, return_ } => return (events, BlockExit::CallInd { target: state.eval(target).v, ret: t(return_) }),
+            Jmp::CallOther { description, return_ } => return (events, BlockExit::CallOther { desc: description.clone(), ret: t(return_) }),
+        }
+    }
+    (events, BlockExit::FallOff)
+}
